@@ -762,6 +762,9 @@ func cmdRun(args []string) int {
 	}
 	for i, v := range out.Violations {
 		fmt.Printf("violation %d: kind=%s label=%s msg=%s\n  nd=%v\n", i, v.Kind, v.Label, firstLines(v.Msg, 5), ndSummary(v.ND))
+		for _, o := range v.Observed {
+			fmt.Printf("  observed %s\n", o)
+		}
 		if flags["replay"] == "true" {
 			path := writeReplay(h.Property, h, h.PkgRel, cfg.Params, v, cfg.Seed, i)
 			ok, how := confirmViolation(ld, h, fn, substs, cfg, v, path)
